@@ -926,6 +926,15 @@ def meaning(c):
         return ("error", type(e).__name__)
 
 
+def has_zero_step(c):
+    """an alias whose slice has the literal step 0 (accepted when another bound, or the defaulted stop, is a let)"""
+    for r in c.registers.values():
+        sl = getattr(r, "alias_slice", None)
+        if sl is not None and isinstance(sl.step, int) and sl.step == 0:
+            return True
+    return False
+
+
 def has_same_kind_nesting(c):
     def st(s, top):
         if isinstance(s, LoopStatement):
@@ -1031,7 +1040,7 @@ def mutate(text, rng):
         return rng.choice(["register rr9[2]\n", "let zz9 0\n", "register rr9[0]\n"]) + text, "prepend_statement"
     if k == 7:
         return text[:b] + " " + m.group() + text[b:], "duplicate_token"
-    return text[:a] + rng.choice(["1e400.0", "1.0e999", ".5", "1e-06", "0x10", "9" * 30]) + text[b:], "replace_by_odd_number"
+    return text[:a] + rng.choice(["1e400.0", "1.0e999", ".5", "1e-06", "0x10", " 999999999999 "]) + text[b:], "replace_by_odd_number"
 
 
 # ------------------------------------------------------------------------------------------------ builder API circuits
@@ -1281,7 +1290,7 @@ def make_program(seed, idx):
 
 def trip_oracles(acc, c, gs, case, prog=None):
     """the direct oracles on one accepted circuit; returns the impl answer for `round_trip`"""
-    if prog is not None and prog.feat.get("map_slice_literal_zero_step"):
+    if has_zero_step(c):
         # known violation (reported): `notate_slice` does not write a step of 0; kept apart so that the main oracles
         # stay informative
         ans, t, c2 = impl_round_trip(c, gs)
@@ -1383,11 +1392,11 @@ def process_program(acc, seed, idx, thorough):
             # S-expression), evaluated inside the model: all hold whenever the real code round-trips
             ask("round_trip_layers", {"text": text, "natives": natives}, case, {"printable": True, "A": True, "B": True, "C": True})
         names = PASSES if thorough or idx % 2 == 0 else rng.sample(PASSES, 3)
-        if p.feat.get("map_slice_literal_zero_step") and "equal" in ans and not ans["equal"]:
+        if has_zero_step(c) and "equal" in ans and not ans["equal"]:
             ask("round_trip_layers", {"text": text, "natives": natives}, case, {"printable": True, "A": True, "B": True, "C": False})
         shadow = any(k.startswith("param_shadows") for k in p.feat)
         acc.dist["semantically_illegal_nesting_accepted_by_builder"] += 1 if illegal_nesting(c) else 0
-        if not p.feat.get("map_slice_literal_zero_step"):
+        if not has_zero_step(c):
             pass_oracles(acc, c, gs, case, rng, names, shadowing=shadow)
         if len(acc.samples) < 4 and len(text) > 150:
             acc.samples.append(case)
@@ -1403,10 +1412,7 @@ def process_program(acc, seed, idx, thorough):
             acc.dist["mutant_accepted"] += 1
             acc.nontrivial.add(mt)
             ask("parse_program", {"text": mt, "natives": natives}, mcase, {"ok": dumpc(mc)})
-            if p.feat.get("map_slice_literal_zero_step"):
-                ans = impl_round_trip(mc, gs)[0]      # known violation: correspondence only
-            else:
-                ans = trip_oracles(acc, mc, gs, mcase)
+            ans = trip_oracles(acc, mc, gs, mcase)
             ask("round_trip", {"text": mt, "natives": natives}, mcase, ans)
 
 
